@@ -35,7 +35,10 @@ def rand_version(rng, product):
         return '.'.join(str(x) for x in [0] + [rng.choice(COMP) for _ in range(n - 1)])
     if product == 'OpenSSH' and rng.random() < 0.5:
         return '%d.%d' % (rng.choice([6, 7, 8, 9, 10, 11, 12]), rng.choice([0, 1, 2, 5, 9, 10]))
-    return '.'.join(str(rng.choice(COMP)) for _ in range(n))
+    comps = [rng.choice(COMP) for _ in range(n)]
+    if rng.random() < 0.15:
+        comps[rng.randrange(1, n)] = rng.choice(YEARS + [255, 256, 257, 1000])      # a year-like / large component that is not the first
+    return '.'.join(str(x) for x in comps)
 
 
 def cases(seed, tier):
